@@ -173,6 +173,8 @@ def run(out: Outcome) -> None:
     for i in range(n_inc):
         w = rng.choice([1, 2, 3, 5, 8, 13, 30])
         n = rng.choice([2, 5, 10, 30, 64, 100, 257])
+        if i % 7 == 3:       # larger references and windows (still the exact p-value: both sizes <= 10 000)
+            w, n = rng.choice([48, 64, 120] if thorough else [48, 64]), rng.choice([600, 1200, 2500] if thorough else [600, 900])
         if i == 0:
             n, w = 5, 5
         ref = sample(rng, n)
